@@ -7,7 +7,7 @@ from . import front
 from .values import *  # noqa
 from .state import State, Fork, Unsupported, Ob
 from .expr import Evaluator, I, as_int, as_real, is_num, const_int, zmin, zmax
-from .contract import REGISTRY, BY_NAME, Contract
+from .contract import REGISTRY, BY_NAME, Contract, CLASSES
 from . import values as _values
 values_ctr = _values._ctr
 
@@ -146,7 +146,12 @@ class Engine(Evaluator):
     CLASS_FILE = {}
 
     def class_fields(self, cls):
-        return self.CLASS_FIELDS.get(cls, {})
+        out = {}
+        if cls in CLASSES:
+            out.update({k: parse_type(v) for k, v in CLASSES[cls]['fields'].items()})
+        if self.cur is not None and self.cur.qual.split('.')[0] == cls:
+            out.update({k: parse_type(v) for k, v in self.cur.fields.items()})
+        return out
 
     # ---- name resolution -------------------------------------------------------------------------
     def resolve_global(self, name, st):
@@ -176,7 +181,7 @@ class Engine(Evaluator):
                     if c.is_property:
                         return self.apply_contract(c, [obj], {}, st, None)
                     return VFunc('method', attr, self_val=obj, extra=c)
-            f = self.CLASS_FILE.get(cls)
+            f = (CLASSES.get(cls) or {}).get('file')
             bases = front.class_bases(f, cls) if f else []
             cls = bases[0] if bases else None
         return None
@@ -458,7 +463,7 @@ class Engine(Evaluator):
             if cls == name:
                 return True
             seen.add(cls)
-            f = self.CLASS_FILE.get(cls)
+            f = (CLASSES.get(cls) or {}).get('file')
             bases = front.class_bases(f, cls) if f else []
             cls = bases[0] if bases else None
         return False
@@ -866,6 +871,9 @@ class Engine(Evaluator):
     def havoc_for_loop(self, st, body, lc, extra_names=()):
         names, mutated = self.assigned_names(body)
         names |= set(extra_names)
+        # ghost state may be updated by any yield / callback inside the body: havoc all of it
+        for g, cur in list(st.ghost.items()):
+            st.ghost[g] = self.fresh_value(infer_etype(cur), 'ghost_' + g, st)
         ltypes = dict(self.cur.locals)
         ltypes.update(lc.get('locals', {}))
         for n in sorted(names):
@@ -918,6 +926,17 @@ class Engine(Evaluator):
                     st.assume(ln >= 0)
                     st.heap.lists[cur.ref] = st.heap.lists.pop(tmp.ref)
 
+    def apply_lemmas(self, st, lemmas, node, where):
+        """A lemma is a universally valid fact (typically non-linear arithmetic) over the current variables: it is an
+        obligation proved from NO hypotheses (so it cannot smuggle in an assumption) and is then assumed."""
+        for i, x in enumerate(lemmas):
+            lab, e = (('lemma%d' % i, x) if isinstance(x, str) else x)
+            t = self.spec_truth(e, st)
+            line = (getattr(node, 'lineno', self.cur_func_line) - self.cur_func_line) if node is not None else 0
+            ob = Ob('%s.lemma.%s.%s@L%d' % (self.cur_tag, where, lab, line), 'lemma', lab, [], t, line, self.cur.key)
+            self.obs.append(ob)
+            st.assume(t)
+
     def check_invariant(self, st, lc, kind, stmt, ordinal):
         for lab, e in _inv(lc):
             self.oblige(st, kind, 'loop%d.%s' % (ordinal, lab), self.spec_truth(e, st), stmt)
@@ -932,6 +951,12 @@ class Engine(Evaluator):
         ordinal = self.loop_ordinal(stmt)
         lc = self.cur.loops.get(ordinal, {})
         out = []
+        # locals declared in the contract but not yet assigned are arbitrary at loop entry
+        ltypes = dict(self.cur.locals)
+        ltypes.update(lc.get('locals', {}))
+        for n, t in ltypes.items():
+            if n not in st.env:
+                st.env[n] = self.fresh_value(parse_type(t), n + '.uninit', st)
         # 1. invariant holds on entry
         self.check_invariant(st, lc, 'inv-entry', stmt, ordinal)
         # 2. arbitrary iteration
@@ -940,6 +965,7 @@ class Engine(Evaluator):
         if sync:
             head.env[sync[0]] = head.env[sync[1]]
         self.assume_invariant(head, lc)
+        self.apply_lemmas(head, lc.get('lemmas', []), stmt, 'loop%d' % ordinal)
         head.nofork += 1
         try:
             g = guard_fn(head)
